@@ -918,12 +918,12 @@ def corpus_cases():
 def run(ctx) -> Report:
     rep = Report(rule=RULE)
     corpus = corpus_cases()
-    c1 = [c for c in corpus if c.get('dir') == 1] + [gen_case1(ctx.rng) for _ in range(ctx.scale(80, 900))]
-    c2 = [c for c in corpus if c.get('dir') == 2] + [gen_case2(ctx.rng) for _ in range(ctx.scale(110, 1200))]
+    c1 = [c for c in corpus if c.get('dir') == 1] + [gen_case1(ctx.rng) for _ in range(ctx.scale(80, 2500))]
+    c2 = [c for c in corpus if c.get('dir') == 2] + [gen_case2(ctx.rng) for _ in range(ctx.scale(110, 3000))]
     seeds = do_dir1(rep, ctx, c1)
     do_dir2(rep, ctx, c2)
-    check_locations(rep, ctx, seeds, ctx.scale(450, 3000))
-    check_json(rep, ctx, ctx.scale(240, 2000))
+    check_locations(rep, ctx, seeds, ctx.scale(450, 6000))
+    check_json(rep, ctx, ctx.scale(240, 5000))
     readme_probe(rep)
     return rep
 
